@@ -136,3 +136,33 @@ pub fn compositions(n: usize, max_parts: usize) -> Vec<Vec<usize>> {
     rec(n, max_parts, &mut Vec::new(), &mut out);
     out
 }
+
+/// "Dominant symbol + k rare symbols": `len` bytes of 73 with k distinct rare symbols (10, 20, ...)
+/// occurring `occ` (1 or 2) times each, at the start, at the end, or spread evenly. With floor
+/// normalisation the dominant symbol gets total - ceil(k*total/len) and every rare symbol is bumped
+/// from 0 to 1, so the table over-shoots its total by up to k-1: only the normaliser's *downward*
+/// correction keeps it valid (rANS 4x8 tolerates 4096 for a 4095 target, so k >= 3 is needed there;
+/// Nx16 needs exactly 4096).
+pub fn dominant_rare(len: usize, k: usize, placement: usize, occ: usize) -> Item {
+    let mut b = vec![73u8; len];
+    let place = ["start", "end", "spread"][placement];
+    for j in 0..k {
+        let sym = (10 * (j + 1)) as u8;
+        for o in 0..occ {
+            let slot = j * occ + o;
+            let pos = match placement {
+                0 => slot,
+                1 => len - 1 - slot,
+                _ => (slot + 1) * len / (k * occ + 1),
+            };
+            b[pos] = sym;
+        }
+    }
+    Item {
+        bytes: b,
+        expr: format!(
+            "{{let (len,k,occ)=({len}usize,{k}usize,{occ}usize); let mut b=vec![73u8;len]; for j in 0..k {{ for o in 0..occ {{ let slot=j*occ+o; let pos={}; b[pos]=(10*(j+1)) as u8; }} }} b}} /* dominant+{k}-rare x{occ} at {place} */",
+            ["slot", "len-1-slot", "(slot+1)*len/(k*occ+1)"][placement]
+        ),
+    }
+}
